@@ -269,3 +269,124 @@ func (r *Result) Fail(kind, format string, a ...any) {
 	}
 	f.Count++
 }
+
+// OpSeqSpec describes an explicit-state search over operation histories (Engine B): a state is
+// the history that reaches it; Run replays a history on a fresh real object and returns the
+// canonical form of the state reached.
+type OpSeqSpec struct {
+	Alphabet      []string
+	DepthQuick    int
+	DepthThorough int
+	// Run executes hist (indices into Alphabet) on a fresh system. It returns the canonical key
+	// of the state reached ("" = the last operation is not applicable here: do not count, do
+	// not extend) and reports violated oracle clauses through fail.
+	Run func(hist []int, fail func(kind, format string, a ...any)) string
+}
+
+func (s OpSeqSpec) names(h []int) []string {
+	out := make([]string, len(h))
+	for i, x := range h {
+		out[i] = s.Alphabet[x]
+	}
+	return out
+}
+
+// OpSeq runs the breadth-first search and reports states, transitions and the depth completed.
+func OpSeq(c *Ctx, s OpSeqSpec) *Result {
+	r := NewResult("opseq")
+	depth := s.DepthQuick
+	if c.Thorough {
+		depth = s.DepthThorough
+	}
+	r.Bound = depth
+	r.Model = "bfs-over-histories"
+	if c.Replay != nil {
+		hist := c.Replay
+		var fails []string
+		key := s.Run(hist, func(kind, format string, a ...any) {
+			r.Fail(kind, "history %v: %s", s.names(hist), fmt.Sprintf(format, a...))
+			r.Failures[kind].Schedule = hist
+			fails = append(fails, kind)
+		})
+		r.Executions, r.States, r.Transitions = 1, 1, len(hist)
+		r.Outcomes[key]++
+		r.Samples = append(r.Samples, map[string]any{"history": s.names(hist), "state": key})
+		return r
+	}
+	seen := map[string]bool{}
+	init := s.Run(nil, func(kind, format string, a ...any) { r.Fail(kind, "initial state: "+format, a...) })
+	seen[init] = true
+	r.Executions = 1
+	frontier := [][]int{{}}
+	completed := 0
+	for d := 1; d <= depth; d++ {
+		var next [][]int
+		for _, h := range frontier {
+			for op := range s.Alphabet {
+				if !c.Deadline.IsZero() && time.Now().After(c.Deadline) {
+					r.Exhaustive = false
+					r.Cap = fmt.Sprintf("time budget (depth %d completed)", completed)
+					goto done
+				}
+				hist := append(append(make([]int, 0, len(h)+1), h...), op)
+				failed := false
+				key := s.Run(hist, func(kind, format string, a ...any) {
+					failed = true
+					f := r.Failures[kind]
+					if f == nil {
+						r.Fail(kind, "history %v: %s", s.names(hist), fmt.Sprintf(format, a...))
+						r.Failures[kind].Schedule = hist
+						r.Failures[kind].Deviations = len(hist)
+						r.Failures[kind].Trace = s.names(hist)
+					} else {
+						f.Count++
+					}
+				})
+				r.Executions++
+				if key == "" {
+					continue
+				}
+				r.Transitions++
+				r.Steps += len(hist)
+				if failed {
+					continue // do not extend beyond a violating state
+				}
+				if !seen[key] {
+					seen[key] = true
+					next = append(next, hist)
+					if len(r.Samples) < 3 && d == depth {
+						r.Samples = append(r.Samples, map[string]any{"history": s.names(hist), "state": key})
+					}
+				}
+			}
+		}
+		completed = d
+		frontier = next
+	}
+done:
+	r.States = len(seen)
+	r.Distinct = len(seen) - 1
+	r.Bound = completed
+	r.Outcomes = map[string]int{}
+	for k := range seen {
+		if len(r.Outcomes) < 2000 {
+			r.Outcomes[k] = 1
+		}
+	}
+	// a failing history is deterministic by construction; confirm by re-running it
+	for kind, f := range r.Failures {
+		f.Confirmed = 1
+		again := false
+		s.Run(f.Schedule, func(k, format string, a ...any) {
+			if k == kind {
+				again = true
+			}
+		})
+		if again {
+			f.Confirmed = 2
+		} else {
+			f.Flaky = true
+		}
+	}
+	return r
+}
